@@ -231,6 +231,8 @@ def judge(h, box, res, rep, case):
 
     net, S, rlog, peers = box["net"], box["S"], box["rlog"], box["peers"]
     wit = lambda **kw: dict(history=repr(h)[:2000], resource_log=[{k: (v.hex() if isinstance(v, bytes) else v) for k, v in e.items()} for e in rlog][:80], wire=net.dump(90), **kw)
+    for li, e in enumerate(rlog):
+        e["li"] = li  # position in the resource-side log: decides the order of entries that share a wire-log position
     regs = [e for e in rlog if e["ev"] == "register"]
     cbs = {}
     for e in rlog:
@@ -303,7 +305,7 @@ def judge(h, box, res, rep, case):
             if e.kind == "error" and e.dst == S and e.src == dst:
                 causes.append((e.t, e.seq, "transport-error", e.t, e.seq))
         for tr in triggers:
-            if tr["seq"] >= reg["seq"] and tr["kind"] in ("unsuccessful", "last") and tr["t"] > reg["t"] - 1e-12:
+            if tr["seq"] >= reg["seq"] and tr["li"] > reg["li"] and tr["kind"] in ("unsuccessful", "last") and tr["t"] > reg["t"] - 1e-12:
                 term = [e for e in mine if e.seq >= tr["seq"] and (not (64 <= e.msg.code < 96) or b";lastmsg;" in e.msg.payload)]
                 if term:
                     causes.append((tr["t"], None, tr["kind"], term[0].t, term[0].seq))
